@@ -336,7 +336,7 @@ fn gen_reader_nofault(ctx: &GenCtx) -> Vec<Value> {
             let text = matches!(jstr(&payload, "gen"), "text" | "utf8crlf" | "lowent" | "zeros");
             json!({"cfg": cfg, "payload": payload, "src_sched": p.sched().to_json(),
                    "cap": *p.pick(&[1usize,2,3,4,5,8,64,512,8192,8192,65536]),
-                   "consumer": p.consumer(text).to_json(), "opener": p.below(8)})
+                   "consumer": p.consumer(text).to_json(), "opener": p.below(8), "extended": p.chance(1, 6)})
         })
         .collect()
 }
@@ -398,6 +398,19 @@ fn run_reader(plan: &Value, rec: &mut Rec) {
             return;
         }
     };
+    // "extended": the message is followed by a packet that does not belong there (not for armored ones,
+    // where the armor ends the data) - a stream the reader refuses, under every schedule and access mode
+    let mut artifact = artifact;
+    let extended = jbool(plan, "extended") && !jbool(cfg, "armor");
+    if extended {
+        let extra = crate::model::framer::frame(11, &[b'b', 0, 0, 0, 0, 0, b'x', b'y'], &crate::model::framer::LenForm::NewMinimal).unwrap_or_default();
+        if ju64(plan, "opener") % 2 == 0 {
+            artifact.extend_from_slice(&extra);
+        } else {
+            let copy = artifact.clone();
+            artifact.extend_from_slice(&copy);
+        }
+    }
     let artifact = Arc::new(artifact);
     let armor = jbool(cfg, "armor");
     let opener = workload::default_opener(cfg, &info, ju64(plan, "opener") as usize);
@@ -413,6 +426,27 @@ fn run_reader(plan: &Value, rec: &mut Rec) {
         rec.count("probe:reference-read-panicked");
         return;
     };
+    if let (Err(_), true) = (&refo.end, extended) {
+        // refused by the reference read: the scheduled read through the plan's consumer must refuse it too
+        let base = do_read(&artifact, armor, &opener, &verifiers, sched.clone(), cap, &consumer, vec![], max);
+        rec.seam_calls += base.log.calls;
+        let mut h = Fnv(shape);
+        h.u64(base.log.hash.0);
+        h.str(consumer.label());
+        rec.eval(h.0 ^ 0xE7, true);
+        rec.count("probe:extended-message-refused-by-the-reference");
+        match &base.result {
+            Err(p) => rec.violation("panic", &norm_loc(&p.loc), format!("reader panicked on a message followed by another packet: {}", p.msg), plan.clone()),
+            Ok(o) if o.end.is_ok() => rec.violation(
+                "result-differs",
+                &format!("reader:{}", consumer.label()),
+                format!("a message followed by another packet is refused when read in one piece with read_to_end ({:?}); under the plan's schedule and consumer it reads to a clean end ({} bytes)", refo.end, o.data.len()),
+                plan.clone(),
+            ),
+            Ok(_) => {}
+        }
+        return;
+    }
     if let Err(e) = &refo.end {
         rec.count(&format!("skip:reference-read-failed:{}:{}", refo.stage, &e[..e.len().min(60)]));
         if std::env::var("VERIF_DEBUG").is_ok() {
